@@ -38,10 +38,7 @@ fn opt(names: &[&str], i: usize) -> Option<Uuid> {
 /// usage chain model from a tuple
 fn usage_model(t: &[usize]) -> Model {
     // t: [walls(21), sp1(6), sp2(6), l1(6), l2(6), th(3), y1(4), y2(4), w1(4), w2(4)]
-    let mut m = Model {
-        meta: meta(zone("D3")),
-        ..Default::default()
-    };
+    let mut m = model_with_meta(meta(zone("D3")));
     let wc = std_cons(&mut m);
     // walls
     let wseq: Vec<usize> = match t[0] {
@@ -84,23 +81,23 @@ fn usage_model(t: &[usize]) -> Model {
             equipment: 4.0,
             equipment_schedule: opt(&["y2"], o / 3),
             lighting: 5.0,
-            lighting_schedule: None,
+            lighting_schedule: None, ..Default::default()
         });
     }
     m.thermostats.push(Thermostat {
         id: uid("t1"),
         name: "t1".into(),
         temp_max: opt(&["y1", "y2"], t[5]),
-        temp_min: None,
+        temp_min: None, ..Default::default()
     });
     // an unused year schedule first, to observe order
-    m.schedules.year.push(Schedule { id: uid("y0"), name: "y0".into(), values: vec![(uid("w1"), 365)] });
-    m.schedules.year.push(Schedule { id: uid("y1"), name: "y1".into(), values: subset(["w1", "w2"], t[6]) });
-    m.schedules.year.push(Schedule { id: uid("y2"), name: "y2".into(), values: subset(["w1", "w2"], t[7]) });
-    m.schedules.week.push(ScheduleWeek { id: uid("w1"), name: "w1".into(), values: subset(["d1", "d2"], t[8]) });
-    m.schedules.week.push(ScheduleWeek { id: uid("w2"), name: "w2".into(), values: subset(["d1", "d2"], t[9]) });
-    m.schedules.day.push(ScheduleDay { id: uid("d1"), name: "d1".into(), values: vec![1.0; 24] });
-    m.schedules.day.push(ScheduleDay { id: uid("d2"), name: "d2".into(), values: vec![0.0; 24] });
+    m.schedules.year.push(Schedule { id: uid("y0"), name: "y0".into(), values: vec![(uid("w1"), 365)], ..Default::default() });
+    m.schedules.year.push(Schedule { id: uid("y1"), name: "y1".into(), values: subset(["w1", "w2"], t[6]), ..Default::default() });
+    m.schedules.year.push(Schedule { id: uid("y2"), name: "y2".into(), values: subset(["w1", "w2"], t[7]), ..Default::default() });
+    m.schedules.week.push(ScheduleWeek { id: uid("w1"), name: "w1".into(), values: subset(["d1", "d2"], t[8]), ..Default::default() });
+    m.schedules.week.push(ScheduleWeek { id: uid("w2"), name: "w2".into(), values: subset(["d1", "d2"], t[9]), ..Default::default() });
+    m.schedules.day.push(ScheduleDay { id: uid("d1"), name: "d1".into(), values: vec![1.0; 24], ..Default::default() });
+    m.schedules.day.push(ScheduleDay { id: uid("d2"), name: "d2".into(), values: vec![0.0; 24], ..Default::default() });
     m
 }
 
@@ -109,10 +106,7 @@ const BRIDGE_L: [f32; 6] = [0.0, -0.0, 1e-9, 0.005, 1.0, -1.0];
 /// construction chain model
 fn cons_model(t: &[usize]) -> Model {
     // t: [walls(13), c1(4), c2(4), wins(13), k1(9), k2(9), bridges(6)]
-    let mut m = Model {
-        meta: meta(zone("D3")),
-        ..Default::default()
-    };
+    let mut m = model_with_meta(meta(zone("D3")));
     m.spaces.push(space("s1", SpaceType::CONDITIONED, true, 3.0));
     let seq = |k: usize| -> Vec<usize> {
         match k {
@@ -155,7 +149,7 @@ fn cons_model(t: &[usize]) -> Model {
     m.cons.frames.push(frame("f1", 3.2));
     m.cons.frames.push(frame("f2", 1.3));
     for (i, l) in [BRIDGE_L[t[6]], 2.0, BRIDGE_L[(t[6] + 3) % 6]].iter().enumerate() {
-        m.thermal_bridges.push(ThermalBridge { id: uid(&format!("tb{i}")), name: format!("tb{i}"), kind: ThermalBridgeKind::CORNER, l: *l, psi: 0.1 });
+        m.thermal_bridges.push(ThermalBridge { id: uid(&format!("tb{i}")), name: format!("tb{i}"), kind: ThermalBridgeKind::CORNER, l: *l, psi: 0.1, ..Default::default() });
     }
     m
 }
@@ -390,7 +384,7 @@ pub fn run(ctx: &Ctx) -> i32 {
         let mut m2 = m.clone();
         m2.spaces.insert(0, space("unused-space", SpaceType::CONDITIONED, true, 3.0));
         m2.cons.materials.insert(0, mat_detailed("unused-mat", 1.0));
-        m2.thermal_bridges.insert(0, ThermalBridge { id: uid("tb-zero"), name: "z".into(), kind: ThermalBridgeKind::GENERIC, l: 0.0, psi: 1.0 });
+        m2.thermal_bridges.insert(0, ThermalBridge { id: uid("tb-zero"), name: "z".into(), kind: ThermalBridgeKind::GENERIC, l: 0.0, psi: 1.0, ..Default::default() });
         for (v, mm) in [("as-shipped", &m), ("with-unused-items", &m2)] {
             ctx.eval(1);
             ctx.nontriv(1);
